@@ -5,8 +5,8 @@ import ast
 
 from . import e2_formula as F
 from .core import AnchorError, Unsupported
-from .e1_srcmodel import dotted, find_nodes, walk_no_nested, ancestors, utext
-from .e2_eval import Evaluator, Unknown, is_unknown, need
+from .e1_srcmodel import dotted, walk_no_nested
+from .e2_eval import is_unknown, need
 
 UTIL = "pyyeti/ode/_utilities.py"
 SOLVEUNC = "pyyeti/ode/solveunc.py"
@@ -175,7 +175,7 @@ def r1b_regime_selectors(ctx):
     matrix (same mathematical problem) would select different formulas; and the near-zero-eigenvalue override of the complex path
     must not depend on the step (its accumulated error is |lambda| * t, independent of h).  Decided on values: get_su_coef is evaluated for the
     generic mode of every regime with b = 2 beta m, k = wo2 m; both operands of every mode-selecting comparison must be free of m."""
-    from .c01_coef import run_su_coef, run_complex_coefs, REGIMES
+    from .c01_coef import run_su_coef, run_complex_coefs, REGIMES, mass_invariant
     from .c01_ev import Sem01, unsym
     fn = ctx.src.func(UTIL, "get_su_coef")
     seen = {}      # id(node) -> [node, set of raw symbols the operands depend on]
@@ -189,9 +189,8 @@ def r1b_regime_selectors(ctx):
             for node, op, L, R, r in ev.cmp_log:
                 ent = seen.setdefault(id(node), [node, set(), 0])
                 ent[2] += r is not None
-                for v in (L, R):
-                    if v.depends_on("m"):
-                        ent[1].add("m")
+                if not mass_invariant(L, R):
+                    ent[1].add("m")
     nsel = 0
     for node, raw, decided in seen.values():
         if not decided:
@@ -200,7 +199,7 @@ def r1b_regime_selectors(ctx):
         label = ast.unparse(node)[:80]
         ok = not raw
         ctx.check(ok, f"get_su_coef: the mode selector `{label}` depends only on mass-normalised quantities (C = b/2m, wo2 = k/m, w2, h)", node,
-                  None if ok else f"with b = 2 beta m, k = wo2 m the operands of `{label}` still contain the mass: the same system given with a mass vector and "
+                  None if ok else f"with b = 2 beta m, k = wo2 m the truth of `{label}` still depends on the mass: the same system given with a mass vector and "
                                   "with m=None (mass-normalised b, k) would be sent to different coefficient formulas",
                   key=f"C01-R1b|get_su_coef|{label}")
     ctx.check(nsel >= 6, f"regime-selector rule bound to {nsel} predicates", fn, nontrivial=False)
@@ -302,11 +301,63 @@ def r3_partition_typing(ctx):
             ok = isinstance(t, Arr) and t.r == want[nm]
             ctx.check(ok, f"SolveExp2.__init__: self.{nm} is the ({want[nm][0]}, {want[nm][1]}) block of E for the [v; d] state of _build_A", st,
                       None if ok else repr(t), key=f"C01-R5|SolveExp2.__init__|{nm}")
-    # the [v; d] layout itself: _build_A puts the velocity equations in rows :n (A[v2, v1] = 1 is d' = v)
-    fb = ctx.src.func(O.BASE, "_BaseODE._build_A")
-    txt = utext(fb)
-    ok = "A[v2,v1]=1.0" in txt and "v1=range(n)" in txt and "v2=range(n,2*n)" in txt and "A[:n,:n]=-self.b" in txt and "A[:n,n:]=-self.k" in txt
-    ctx.check(ok, "_build_A: state is [v; d] (rows :n are the velocity equations -b v - k d, rows n: are d' = v)", fb)
+    # the [v; d] layout itself: _build_A puts the velocity equations in rows :n (A[v2, v1] = 1 is d' = v) - read from the stores into the returned matrix
+    _state_layout(ctx, O.BASE)
+
+
+def _half(v):
+    """(which half, n) of a row / column selector of the 2n x 2n state matrix: range(n) / :n / np.arange(n) -> first; range(n, 2n) / n: / n:2n -> second"""
+    from .sem import unfn
+    u = unfn(v)
+    if not u:
+        return None
+    nm, args = u
+    if any(isinstance(x, str) for x in args):
+        return None
+    NONE_ = F.sym("None")
+    if nm in ("call:range", "call:np.arange"):
+        if len(args) == 1:
+            return "first", args[0]
+        if len(args) == 2 and args[1].equals(2 * args[0]):
+            return "second", args[0]
+    if nm == "slice" and len(args) == 3 and args[2].equals(NONE_):
+        if args[0].equals(NONE_) and not args[1].equals(NONE_):
+            return "first", args[1]
+        if not args[0].equals(NONE_) and (args[1].equals(NONE_) or args[1].equals(2 * args[0])):
+            return "second", args[0]
+    return None
+
+
+def _state_layout(ctx, rel):
+    from .c01_ev import Sem01, NONE
+    from .sem import unfn
+    fb = ctx.src.func(rel, "_BaseODE._build_A")
+    for unc in (True, False):
+        S = Sem01(ctx, fb, truth={"self.unc": unc}, env={"self.m": NONE, "self.b": F.sym("b"), "self.k": F.sym("k")})
+        ret = S.ret()
+        from .c01_ev import unsym
+        name = unsym(ret) if isinstance(ret, F.Rat) else None
+        blocks = {}
+        nval = None
+        good = name is not None
+        for ix, val, st in (S.cells(name) if name else []):
+            u = unfn(ix) if not is_unknown(ix) else None
+            if not (u and u[0] == "tuple" and len(u[1]) == 2):
+                good = False
+                continue
+            hr, hc = _half(u[1][0]), _half(u[1][1])
+            if hr is None or hc is None or not hr[1].equals(hc[1]) or (nval is not None and not hr[1].equals(nval)):
+                good = False
+                continue
+            nval = hr[1]
+            blocks[(hr[0], hc[0])] = val
+        if not good or not blocks:
+            ctx.error(f"_build_A ({'diagonal' if unc else 'coupled'}): the stores into the state matrix were not lowered", fb, repr(S.cells(name) if name else ret)[:300])
+            continue
+        okv = lambda key, w: key in blocks and isinstance(blocks[key], F.Rat) and blocks[key].equals(w)
+        ok = okv(("second", "first"), 1) and okv(("first", "first"), -F.sym("b")) and okv(("first", "second"), -F.sym("k")) and ("second", "second") not in blocks
+        ctx.check(ok, f"_build_A ({'diagonal' if unc else 'coupled'}): state is [v; d] (rows :n are the velocity equations -b v - k d, rows n: are d' = v)", fb,
+                  None if ok else {f"{r}/{c}": repr(v)[:80] for (r, c), v in blocks.items()})
 
 
 def r4_frame_typing(ctx):
@@ -315,24 +366,39 @@ def r4_frame_typing(ctx):
     solve against phi, a stored inverse, a transpose times the mass - the user's physical d0 / v0 must reach the modal work arrays as
     phi^-1 d0, the force as phi.T f, and the solution must come back as phi d."""
     from . import ode_spaces as O
-    from .sem import Sem
+    from .c01_ev import Sem01, helpers
     NONE = F.sym("None")
+    inl = helpers(ctx, (O.BASE, "_BaseODE"), exclude=("_init_dv", "_alloc_dva", "_init_dva", "_do_pre_eig", "_solution", "_solution_freq", "_calc_acce_kdof"))
+
+    def Sem(ctx_, fn_, **kw):
+        kw.setdefault("inline", inl)
+        kw.setdefault("nonnull", {"M", "d0", "v0", "f", "b", "k", "u"})
+        if kw.get("cond") is not None and hasattr(kw["cond"], "truth"):
+            kw.setdefault("truth", kw["cond"].truth)
+        return Sem01(ctx_, fn_, **kw)
     f_pre = ctx.src.func(O.BASE, "_BaseODE._do_pre_eig")
     f_dva = ctx.src.func(O.BASE, "_BaseODE._init_dva")
 
     def is_none_oracle(extra):
+        """`X.ndim == c` decided from a table keyed on the *value* X; truthiness of attributes (`self.pre_eig`, `self.rfsize`, `self.h`) is given to the
+        evaluator as `truth=`; `x is None` is decided on values by the evaluator itself"""
+        nd = {k[:-len(".ndim==1")]: v for k, v in extra.items() if k.endswith(".ndim==1")}
+
         def cond(test, ev):
-            t = utext(test)
-            if t in extra:
-                return extra[t]
-            if isinstance(test, ast.Compare) and len(test.ops) == 1 and isinstance(test.ops[0], (ast.Is, ast.IsNot)) \
-                    and isinstance(test.comparators[0], ast.Constant) and test.comparators[0].value is None:
-                v = ev.ev(test.left)
-                if is_unknown(v) or isinstance(v, tuple):
-                    return None
-                r = need(v).equals(NONE)
-                return r if isinstance(test.ops[0], ast.Is) else (not r)
+            from .sem import unfn
+            from .c01_ev import unsym, const_of
+            if isinstance(test, ast.Compare) and len(test.ops) == 1 and isinstance(test.ops[0], ast.Eq):
+                a_, b_ = ev.ev(test.left), ev.ev(test.comparators[0])
+                for x, y in ((a_, b_), (b_, a_)):
+                    u = unfn(x) if isinstance(x, F.Rat) else None
+                    c = const_of(y) if isinstance(y, F.Rat) else None
+                    if u and u[0] == "attr:ndim" and c is not None and not isinstance(u[1][0], str):
+                        nm = unsym(u[1][0])
+                        nm = {"M": "m"}.get(nm, nm)
+                        if nm in nd:
+                            return (1 if nd[nm] else 2) == c
             return None
+        cond.truth = {k: v for k, v in extra.items() if not k.endswith(".ndim==1")}
         return cond
 
     for mcase in ("given", "None"):
@@ -380,7 +446,7 @@ def r4_frame_typing(ctx):
             return NotImplemented
 
         S2 = Sem(ctx, f_dva, call=call, env=env, subscript=sub, erase_T=True,
-                 cond=is_none_oracle({"self.pre_eig": True, "force.shape[0]!=self.n": False, "self.rfsize": False}))
+                 cond=is_none_oracle({"self.pre_eig": True, "self.rfsize": False}))
         calls = S2.calls("self._init_dv")
         if len(calls) != 1:
             raise AnchorError("_init_dva: call to self._init_dv")
@@ -420,20 +486,19 @@ def r4_frame_typing(ctx):
             ctx.check(ok, f"{q} (m {mcase}): d, v, a are mapped back to physical coordinates with phi when pre_eig", f2)
     # and nothing is mapped when pre_eig is off
     S4 = Sem(ctx, f_dva, env={"d0": F.sym("d0"), "v0": F.sym("v0"), "force": F.sym("f")},
-             cond=is_none_oracle({"self.pre_eig": False, "force.shape[0]!=self.n": False, "self.rfsize": False}),
+             cond=is_none_oracle({"self.pre_eig": False, "self.rfsize": False}),
              call=lambda node, ev: ((ev.ev(node.args[0]), ev.ev(node.args[1])) if dotted(node.func) == "self._set_initial_cond" else
                                     ((F.sym("d_work"), F.sym("v_work"), F.sym("a_work")) if dotted(node.func) == "self._alloc_dva" else NotImplemented)),
              subscript=lambda node, ev: (ev.ev(node.value) if isinstance(node.value, ast.Name) and node.value.id == "force" else NotImplemented))
     c4 = S4.calls("self._init_dv")
     ok = len(c4) == 1 and len(c4[0][1]) >= 5 and S4.same(c4[0][1][2], F.sym("d0")) and S4.same(c4[0][1][3], F.sym("v0")) and S4.same(c4[0][1][4], F.sym("f"))
     ctx.check(ok, "_init_dva (no pre_eig): d0, v0 and the force reach _init_dv unchanged", f_dva)
-    # generator refuses pre_eig before any array is shared
+    # generator refuses pre_eig before any array is shared: on the pre_eig path the evaluation of _init_dva_part ends in a `raise` and no work array has
+    # been requested before it
     f4 = ctx.src.func(O.BASE, "_BaseODE._init_dva_part")
-    first_alloc = min((n.lineno for n in ast.walk(f4) if isinstance(n, ast.Call) and dotted(n.func) == "self._alloc_dva"), default=None)
-    guard = [n for n in f4.body if isinstance(n, ast.If) and ast.unparse(n.test).replace(" ", "") == "self.pre_eig"
-             and any(isinstance(x, ast.Raise) for x in n.body)]
-    ok = bool(guard) and first_alloc is not None and guard[0].lineno < first_alloc
-    ctx.check(ok, "_init_dva_part (generator path): pre_eig is refused before any array is allocated", f4)
+    S5 = Sem(ctx, f4, cond=is_none_oracle({"self.pre_eig": True}), env={"F0": F.sym("F0"), "d0": F.sym("d0"), "v0": F.sym("v0")})
+    ok = S5.ev.raised is not None and not S5.calls("self._alloc_dva") and not S5.calls("self._init_dv")
+    ctx.check(ok, "_init_dva_part (generator path): pre_eig is refused before any array is allocated", S5.ev.raised or f4)
 
 
 # ---------------------------------------------------------------------------
@@ -441,99 +506,191 @@ def r4_frame_typing(ctx):
 BASEF = "pyyeti/ode/_base_ode_class.py"
 
 
+def _dd(x, zero_diag=()):
+    """the diagonal part (as a matrix) of x; 0 for the matrices the rule declares zero-diagonal"""
+    from .c01_ev import unsym
+    if unsym(x) in zero_diag:
+        return F.const(0)
+    return F.fn("dd", x)
+
+
+def _diag_ev(zero_diag=()):
+    from .c01_ev import Ev01, unfn as _unfn, const_of
+
+    class DiagEv(Ev01):
+        """matrices as commuting symbols with their diagonal part dd(X) kept apart: the idiom `X[i, i] = y` with i = np.arange(n) (and
+        np.fill_diagonal(X, y)) replaces the diagonal of the local matrix X: X becomes X - dd(X) + y;  np.diag(np.diag(X)) is dd(X)"""
+
+        def _set_diag(self, nm, y):
+            cur = self.env.get(f"<init:{nm}>") if nm in self.buffers else self.env.get(nm)
+            if isinstance(cur, F.Rat) and isinstance(y, F.Rat):
+                self.buffers = set(self.buffers) - {nm}
+                self.env[nm] = cur - _dd(cur, zero_diag) + y
+                return True
+            return False
+
+        def scalar_store(self, target, base, v, st, aug):
+            sl = target.slice
+            if isinstance(target.value, ast.Name) and isinstance(sl, ast.Tuple) and len(sl.elts) == 2 and not aug:
+                i, j = self.ev(sl.elts[0]), self.ev(sl.elts[1])
+                if isinstance(i, F.Rat) and isinstance(j, F.Rat) and i.equals(j):
+                    u = _unfn(i)
+                    if u and u[0] in ("call:np.arange", "call:range") and self._set_diag(target.value.id, self.plain(v)):
+                        return
+            return super().scalar_store(target, base, v, st, aug)
+
+        def builtin_call(self, d, node):
+            if d == "np.fill_diagonal" and len(node.args) == 2 and isinstance(node.args[0], ast.Name):
+                if self._set_diag(node.args[0].id, self.ev(node.args[1])):
+                    return F.sym("None")
+            if d == "np.diag" and len(node.args) == 1:
+                x = self.ev(node.args[0])
+                if isinstance(x, F.Rat):
+                    u = _unfn(x)
+                    if u and u[0] == "diagvec" and not isinstance(u[1][0], str):
+                        return _dd(u[1][0], zero_diag)
+                    return F.fn("diagvec", x)
+            return super().builtin_call(d, node)
+    return DiagEv
+
+
 def r6_equilibrium_acceleration(ctx):
     """_BaseODE._calc_acce_kdof: in each of its six arms (diagonal / diagonal with off-diagonal damping carried as a force / coupled, each with
     and without a mass) the stored acceleration is M^-1 (F - B v - K d) with B the *full* damping; the split of a coupled damping matrix into
-    its diagonal `b` and zero-diagonal remainder `bo` (_chk_diag_part) is undone with the same index idiom; every time-domain solver calls it."""
+    its diagonal `b` and zero-diagonal remainder `bo` (_chk_diag_part) is undone with the same index idiom; every time-domain solver calls it.
+    Decided on values: d, v, a are history objects created by the rule, the rows `self.kdof` of `a` are read after the run (helpers followed)."""
+    from .c01_ev import Sem01, Hist, helpers, NONE
     fn = ctx.src.func(BASEF, "_BaseODE._calc_acce_kdof")
-    Fs, v, d, b, bo, k, invm = (F.sym(x) for x in ("Fk", "vk", "dk", "b", "bo", "k", "invm"))
-    arms = [("diagonal, m given", dict(unc=True, cd=False, m=True), invm * (Fs - b * v - k * d)),
-            ("diagonal, m None", dict(unc=True, cd=False, m=False), Fs - b * v - k * d),
-            ("diagonal + off-diagonal damping as force, m given", dict(unc=True, cd=True, m=True), invm * (Fs - (b + bo) * v - k * d)),
-            ("diagonal + off-diagonal damping as force, m None", dict(unc=True, cd=True, m=False), Fs - (b + bo) * v - k * d),
-            ("coupled, m given", dict(unc=False, cd=False, m=True), invm * (Fs - b * v - k * d)),
-            ("coupled, m None", dict(unc=False, cd=False, m=False), Fs - b * v - k * d)]
+    b, bo, k, invm = (F.sym(x) for x in ("b", "bo", "k", "invm"))
+    KD = F.sym("self.kdof")
+    NT = 2
+    f = tuple(F.sym(f"f{i}") for i in range(NT))
+    inl = helpers(ctx, (BASEF, "_BaseODE"), exclude=("_calc_acce_kdof", "_init_dva", "_init_dv", "_solution", "_solution_freq", "finalize"))
+    arms = [("diagonal, m given", dict(unc=True, cd=False, m=True), lambda Fs, v, d: invm * (Fs - b * v - k * d)),
+            ("diagonal, m None", dict(unc=True, cd=False, m=False), lambda Fs, v, d: Fs - b * v - k * d),
+            ("diagonal + off-diagonal damping as force, m given", dict(unc=True, cd=True, m=True), lambda Fs, v, d: invm * (Fs - (b + bo) * v - k * d)),
+            ("diagonal + off-diagonal damping as force, m None", dict(unc=True, cd=True, m=False), lambda Fs, v, d: Fs - (b + bo) * v - k * d),
+            ("coupled, m given", dict(unc=False, cd=False, m=True), lambda Fs, v, d: invm * (Fs - b * v - k * d)),
+            ("coupled, m None", dict(unc=False, cd=False, m=False), lambda Fs, v, d: Fs - b * v - k * d)]
     for name, cfg, want in arms:
-        def cond(test, ev, cfg=cfg):
-            return {"self.ksize": True, "self.unc": cfg["unc"], "self.cdforces": cfg["cd"], "self.misnotNone": cfg["m"]}.get(utext(test))
-
-        def sub(node, ev):
-            return {"force[kdof]": Fs, "v[kdof]": v, "d[kdof]": d}.get(utext(node), NotImplemented)
-
-        def call(node, ev):
-            dn = dotted(node.func) or ""
-            if dn == "la.lu_solve":
-                a_, b_ = ev.ev(node.args[0]), ev.ev(node.args[1])
-                if is_unknown(a_) or is_unknown(b_):
-                    return a_ if is_unknown(a_) else b_
-                return need(a_) * need(b_)       # self.invm holds the factorisation of M: lu_solve(invm, x) = M^-1 x
-            if dn == "np.arange":
-                return F.sym("__arange")
-            return NotImplemented
-
-        class Ev(Evaluator):
-            def _assign(self, target, val, st, aug=False):
-                # idiom: X[i, i] = y with i = np.arange(n): the diagonal of X is replaced by y.  X was built from a zero-diagonal matrix,
-                # so X becomes (zero-diagonal part) + diag(y)
-                if isinstance(target, ast.Subscript) and isinstance(target.value, ast.Name) and isinstance(target.slice, ast.Tuple) \
-                        and len(target.slice.elts) == 2 and all(isinstance(e, ast.Name) and not is_unknown(self.env.get(e.id, Unknown("")))
-                                                                 and repr(self.env.get(e.id)) == "__arange" for e in target.slice.elts) \
-                        and target.slice.elts[0].id == target.slice.elts[1].id:
-                    cur = self.env.get(target.value.id)
-                    if cur is not None and not is_unknown(cur) and not is_unknown(val):
-                        self.env[target.value.id] = need(cur) + need(val)
-                        return
-                return super()._assign(target, val, st, aug)
-
-        ev = Ev(env={"self.bo": bo, "self.b": b, "self.k": k, "self.invm": invm, "self.kdof": F.sym("kdof")}, cond=cond, src=ctx.src, subscript=sub, call=call,
-                store_accept=lambda n, i, node: True)
-        ev.run(fn.body)
-        got = [val for nm, idx, val, st in ev.stores if nm == "a"]
-        if len(got) != 1 or is_unknown(got[0]):
-            ctx.error(f"_calc_acce_kdof ({name}): acceleration store not lowered", fn, repr(got))
+        d, v, a = Hist("d", NT), Hist("v", NT), Hist("a", NT)
+        S = Sem01(ctx, fn, ev_cls=_diag_ev(zero_diag=("bo",)), call=_lu_call, nt=NT, inline=inl, nonnull={"M"},
+                  truth={"self.ksize": True, "self.unc": cfg["unc"], "self.cdforces": cfg["cd"], "self.misnotNone": cfg["m"]},
+                  env={"self.bo": bo, "self.b": b, "self.k": k, "self.invm": invm, "self.m": F.sym("M") if cfg["m"] else NONE,
+                       "d": d, "v": v, "a": a, "force": f})
+        ab = a.block(repr(KD), KD)
+        got = [(ab.get(i),) for i in range(NT)]
+        wantc = [(want(F.fn("idx", f[i], KD), v.initial(repr(KD), KD, i), d.initial(repr(KD), KD, i)),) for i in range(NT)]
+        if any(g[0] is None or is_unknown(g[0]) or not isinstance(g[0], F.Rat) for g in got) or not a.stores:
+            ctx.error(f"_calc_acce_kdof ({name}): acceleration store not lowered", fn, repr(got)[:400])
             continue
-        ok = need(got[0]).equals(want)
-        ctx.check(ok, f"_calc_acce_kdof ({name}): a = M^-1 (F - B v - K d) with the full damping matrix", fn,
-                  None if ok else {"got": repr(got[0]), "want": repr(want)})
-    # the zero-diagonal remainder: _chk_diag_part builds bo from a copy of b and must zero its diagonal
+        ok, detail = _hist_steps(ctx, "", fn, got, wantc, ("acceleration",))
+        ctx.check(ok, f"_calc_acce_kdof ({name}): a = M^-1 (F - B v - K d) with the full damping matrix", fn, detail)
+    # the zero-diagonal remainder: _chk_diag_part (coupled damping carried as a force: m None, b 2-D and not diagonal, k 1-D, cd_as_force) must publish
+    # self.b = diag(b) and self.bo = b - dd(b), both restricted to the non-rf equations when there are rf modes
     cd = ctx.src.func(BASEF, "_BaseODE._chk_diag_part")
-    stmts = [n for n in walk_no_nested(cd) if isinstance(n, (ast.Assign, ast.AugAssign, ast.Expr))]
-    born = [n for n in stmts if isinstance(n, ast.Assign) and utext(n.targets[0]) == "bo" and utext(n.value) in ("b.copy()", "np.array(b)", "b+0")]
-    if not born:
-        ctx.error("_chk_diag_part: construction of the off-diagonal damping `bo` not recognised", cd)
+    bsym = F.sym("b")
+
+    def cond(test, ev):
+        from .sem import unfn
+        from .c01_ev import unsym, const_of
+        if isinstance(test, ast.Compare) and len(test.ops) == 1 and isinstance(test.ops[0], ast.Eq):
+            a_, b_ = ev.ev(test.left), ev.ev(test.comparators[0])
+            for x, y in ((a_, b_), (b_, a_)):
+                u = unfn(x) if isinstance(x, F.Rat) else None
+                c = const_of(y) if isinstance(y, F.Rat) else None
+                if u and u[0] == "attr:ndim" and c is not None and not isinstance(u[1][0], str) and unsym(u[1][0]) in ("b", "k"):
+                    return {"b": 2, "k": 1}[unsym(u[1][0])] == c
+        return None
+
+    def call(node, ev):
+        dn = dotted(node.func) or ""
+        if dn.endswith("isdiag") and len(node.args) == 1:
+            return F.sym("False")
+        return NotImplemented
+
+    res = {}
+    for rf in (False, True):
+        S = Sem01(ctx, cd, ev_cls=_diag_ev(), cond=cond, call=call, truth={"self.rfsize": rf, "cd_as_force": True},
+                  env={"m": NONE, "b": bsym, "k": F.sym("k"), "cd_as_force": F.sym("cd_as_force")})
+        res[rf] = (S.env("self.b"), S.env("self.bo"), S.env("self.cdforces"), S)
+    b0, bo0, cdf, S = res[False]
+    good = lambda v: v is not None and not is_unknown(v) and isinstance(v, F.Rat)
+    if not good(bo0) or not good(b0):
+        ctx.error("_chk_diag_part: construction of the off-diagonal damping `bo` not lowered", cd, {"self.b": repr(b0)[:200], "self.bo": repr(bo0)[:200]})
     else:
-        touch = []
-        for n in stmts:
-            if n.lineno <= born[0].lineno:
-                continue
-            t = utext(n)
-            if t.startswith("bo[") or t.startswith("np.fill_diagonal(bo,") or (isinstance(n, ast.AugAssign) and utext(n.target) == "bo"):
-                touch.append(t)
-        zeroing = [t for t in touch if t in ("bo[i,i]=0.0", "bo[i,i]=0", "np.fill_diagonal(bo,0)", "np.fill_diagonal(bo,0.0)", "bo-=np.diag(np.diag(bo))", "bo-=np.diag(bd)")]
-        if zeroing:
-            ctx.ok("_chk_diag_part: the damping carried as a force is a copy of b with its diagonal zeroed (bo), so b_diag + bo is the full matrix that "
-                   "_calc_acce_kdof reassembles", born[0])
-        elif not touch:
-            ctx.fail("_chk_diag_part: the damping carried as a force is a copy of b with its diagonal zeroed (bo), so b_diag + bo is the full matrix that "
-                     "_calc_acce_kdof reassembles", born[0], "bo is a copy of the full matrix and its diagonal is never cleared: the diagonal damping is applied twice",
+        label = ("_chk_diag_part: the damping carried as a force is a copy of b with its diagonal zeroed (bo), so b_diag + bo is the full matrix that "
+                 "_calc_acce_kdof reassembles")
+        if bo0.equals(bsym - F.fn("dd", bsym)) and b0.equals(F.fn("diagvec", bsym)):
+            ctx.ok(label, cd)
+        elif bo0.equals(bsym):
+            ctx.fail(label, cd, "bo is a copy of the full matrix and its diagonal is never cleared: the diagonal damping is applied twice",
                      key="C01-R6|_chk_diag_part|bo diagonal not zeroed")
+        elif bo0.depends_on("b") and b0.depends_on("b"):
+            ctx.fail(label, cd, {"self.b": repr(b0)[:200], "self.bo": repr(bo0)[:200], "expected": "self.b = diag(b), self.bo = b - diag part of b"},
+                     key="C01-R6|_chk_diag_part|bo")
         else:
-            ctx.error("_chk_diag_part: `bo` is modified by an idiom the checker does not know", born[0], touch)
-    t = utext(cd)
-    sel_b = [x for x in ("b=b[self.nonrf]",) if x in t]
-    sel_bo = [x for x in ("bo=bo[np.ix_(self.nonrf,self.nonrf)]", "bo=bo[self.nonrf][:,self.nonrf]", "bo=bo[self.nonrf,:][:,self.nonrf]") if x in t]
-    if sel_b and sel_bo:
-        ctx.ok("_chk_diag_part: b and bo are restricted to the same non-rf rows (and columns)", cd)
+            ctx.error("_chk_diag_part: `bo` is built by an idiom the checker does not know", cd, {"self.b": repr(b0)[:200], "self.bo": repr(bo0)[:200]})
+    b1, bo1, _c, S1 = res[True]
+    if good(b1) and good(bo1) and good(b0) and good(bo0):
+        S1.ev.env["BVEC"], S1.ev.env["OFF"] = b0, bo0
+        forms = [S1.E(t) for t in ("OFF[np.ix_(self.nonrf, self.nonrf)]", "OFF[self.nonrf][:, self.nonrf]", "OFF[self.nonrf, :][:, self.nonrf]", "OFF[:, self.nonrf][self.nonrf]")]
+        ok = S1.same(b1, "BVEC[self.nonrf]") and any(S1.same(bo1, w) for w in forms)
+        if ok:
+            ctx.ok("_chk_diag_part: b and bo are restricted to the same non-rf rows (and columns)", cd)
+        elif bo1.depends_on("self.rf") or b1.depends_on("self.rf") or bo1.equals(bo0) or b1.equals(b0):
+            ctx.fail("_chk_diag_part: b and bo are restricted to the same non-rf rows (and columns)", cd, {"self.b": repr(b1)[:200], "self.bo": repr(bo1)[:200]})
+        else:
+            ctx.error("_chk_diag_part: the non-rf restriction of b / bo was not recognised", cd, {"self.b": repr(b1)[:200], "self.bo": repr(bo1)[:200]})
     else:
-        ctx.error("_chk_diag_part: the non-rf restriction of b / bo was not recognised", cd, {"b": sel_b, "bo": sel_bo})
-    # callers: every time-domain solution passes through it after the d, v histories are complete
+        ctx.error("_chk_diag_part: the non-rf restriction of b / bo was not lowered", cd, {"self.b": repr(b1)[:200], "self.bo": repr(bo1)[:200]})
+    # callers: every time-domain solution passes through it after the d, v histories are complete, on the arrays that are then returned
+    NT = 3
     for rel, q in ((SOLVEUNC, "SolveUnc.tsolve"), ("pyyeti/ode/solveexp2.py", "SolveExp2.tsolve"), (BASEF, "_BaseODE.finalize")):
         f2 = ctx.src.func(rel, q)
-        calls = [n for n in walk_no_nested(f2) if isinstance(n, ast.Call) and dotted(n.func) == "self._calc_acce_kdof"]
-        rets = [n for n in walk_no_nested(f2) if isinstance(n, ast.Call) and dotted(n.func) == "self._solution"]
-        ok = len(calls) >= 1 and bool(rets) and all(c.lineno < rets[-1].lineno for c in calls) and \
-            [utext(a) for a in calls[-1].args][:3] == ["d", "v", "a"]
-        ctx.check(ok, f"{q}: the kdof acceleration is recovered from equilibrium on (d, v, a, force) before the solution is returned", calls[-1] if calls else f2)
+        cls = q.split(".")[0]
+        inl2 = helpers(ctx, (rel, cls), (BASEF, "_BaseODE"), exclude=UNC_NOT_FOLLOWED)
+        configs = [dict(unc=True, cd=False, st="float"), dict(unc=True, cd=True, st="float"), dict(unc=False, cd=False, st="float")] if cls == "SolveUnc" else [dict(unc=True, cd=False, st="float")]
+        ok, why, where_ = True, None, f2
+        for cfg in configs:
+            d, v, a = Hist("d", NT), Hist("v", NT), Hist("a", NT)
+            ff = tuple(F.sym(f"f{i}") for i in range(NT))
+            events = []
+
+            def call2(node, ev, d=d, v=v, a=a, ff=ff, events=events):
+                dn = dotted(node.func) or ""
+                if dn == "self._init_dva":
+                    return (d, v, a, ff)
+                if dn.startswith("self._solve_"):
+                    events.append(("solve", dn, node, None))
+                    return F.sym("None")
+                if dn in ("self._calc_acce_kdof", "self._solution"):
+                    events.append((dn, [ev.evr(x) for x in node.args], node, (len(d.stores), len(v.stores))))
+                    return F.sym("<solution>") if dn == "self._solution" else F.sym("None")
+                return _lu_call(node, ev)
+            env = {"force": ff, "self.m": NONE, "self.systype": F.sym(cfg["st"]), "self.order": F.const(1)}
+            if q.endswith("finalize"):
+                env.update({"self._d": d, "self._v": v, "self._a": a, "self._force": ff})
+            S = Sem01(ctx, f2, call=call2, nt=NT, inline=inl2, cmp=_size_cmp("ksize", "self.ksize"), env=env,
+                      truth={"self.nonrfsz": True, "self.unc": cfg["unc"], "self.cdforces": cfg["cd"], "self.slices": True, "self.ksize": True})
+            acc = [e for e in events if e[0] == "self._calc_acce_kdof"]
+            sol = [e for e in events if e[0] == "self._solution"]
+            if len(acc) != 1 or len(sol) != 1:
+                ok, why = False, f"{len(acc)} calls of _calc_acce_kdof and {len(sol)} of _solution on the path {cfg}"
+                break
+            where_ = acc[0][2]
+            args = acc[0][1]
+            same = len(args) >= 4 and args[0] is d and args[1] is v and args[2] is a and isinstance(args[3], tuple) and len(args[3]) == NT and \
+                all(isinstance(x, F.Rat) and x.equals(y) for x, y in zip(args[3], ff))
+            order_ok = events.index(acc[0]) < events.index(sol[0]) and all(events.index(e) < events.index(acc[0]) for e in events if e[0] == "solve")
+            complete = acc[0][3] == (len(d.stores), len(v.stores))
+            sol_same = len(sol[0][1]) >= 3 and sol[0][1][0] is d and sol[0][1][1] is v and sol[0][1][2] is a
+            if not (same and order_ok and complete and sol_same):
+                ok = False
+                why = {"arguments are (d, v, a, force)": same, "after the solver, before _solution": order_ok, "no later store into d, v": complete,
+                       "_solution receives the same arrays": sol_same, "path": str(cfg)}
+                break
+        ctx.check(ok, f"{q}: the kdof acceleration is recovered from equilibrium on (d, v, a, force) before the solution is returned", where_, why)
 
 
 def r7_subspace_typing(ctx):
@@ -542,7 +699,9 @@ def r7_subspace_typing(ctx):
     to an array of the space the selector indexes, and every store must receive values computed on exactly the selected modes - otherwise a
     coefficient is built from another mode's mass / damping / frequency (invisible when the properties are uniform or the selected modes are
     the leading ones, as in every test)."""
-    from .e3_masks import MaskTyper, A, I, S
+    from .e3_masks import A, I, S
+    from .c01_masks import MaskTyper01 as MaskTyper
+    from .sem import module_funcs
     base_attrs = {"self.nonrf": I("N", "K"), "self.kdof": I("N", "K"), "self.rf": I("N", "N/rf"), "self.k": A("K"), "self.b": A("K"), "self.m": A("K")}
     for rel, qual, params, sizes, floor in (
             (UTIL, "get_su_coef", {"m": A("K"), "b": A("K"), "k": A("K"), "h": S, "rbmodes": I("K", "K/rbmodes"), "rfmodes": I("K", "K/rfmodes")},
@@ -556,7 +715,10 @@ def r7_subspace_typing(ctx):
         def report(kind, node, detail, bad=bad):
             bad.append((kind, node, detail))
 
-        T = MaskTyper(params, sizes, report, passthrough={"self._ensure_index_type"}, cond={"self.rfsize": True} if qual.endswith("_chk_diag_part") else None)
+        inl = module_funcs(ctx, rel, cls="_BaseODE" if rel == BASEF else None, exclude=(qual.split(".")[-1], "_ensure_index_type"))
+        inl = {k_: v_ for k_, v_ in inl.items() if v_ is not fn and k_ != "self._ensure_index_type"}
+        T = MaskTyper(params, sizes, report, passthrough={"self._ensure_index_type"}, cond={"self.rfsize": True} if qual.endswith("_chk_diag_part") else None,
+                      inline=inl)
         T.run(fn.body)
         if qual.endswith("_make_rb_el"):
             # what the method publishes: rb, el index the full set; _rb, _el index the non-rf set (the table the other rules rely on)
@@ -576,20 +738,35 @@ def r7_subspace_typing(ctx):
                 continue
             seen.add(key)
             ctx.fail(f"{qual}: {kind}", node, detail, key=key)
-        ctx.check(T.resolved >= floor, f"{qual}: {T.resolved} selections / stores / elementwise operations typed (mask and index sub-spaces of the mode list)", fn,
-                  T.resolved, nontrivial=T.resolved >= floor)
+        if T.resolved >= floor:
+            ctx.ok(f"{qual}: {T.resolved} selections / stores / elementwise operations typed (mask and index sub-spaces of the mode list)", fn, T.resolved)
+        else:
+            ctx.error(f"{qual}: only {T.resolved} selections / stores / elementwise operations could be typed (floor {floor}): the sub-space typing does not bind "
+                      "to this form of the function", fn, T.resolved)
         if not bad:
             ctx.ok(f"{qual}: every selector is applied to an array of its own space and every store receives values of the selected sub-space", fn)
+
+
+def _hist_steps(ctx, label, where, got_cols, want_cols, names):
+    """compare the computed columns of a generic history with the documented recurrence, column by column; -> (ok, detail)"""
+    for j, (got, want) in enumerate(zip(got_cols, want_cols)):
+        for g, w, nm in zip(got, want, names):
+            if g is None or is_unknown(g) or isinstance(g, tuple) or not isinstance(g, F.Rat) or not g.equals(w):
+                return False, {"sample": j, "quantity": nm, "computed": repr(g)[:300], "recurrence": repr(w)[:300]}
+    return True, None
 
 
 def r8_solveexp1(ctx):
     """First-order exact solver y' = A y + f: the constructor takes E, P, Q from expmint.getEPQ(A, h, order) and tsolve advances
     y_j = E y_{j-1} + P f_{j-1} + Q f_j (order 1) / E y_{j-1} + P f_{j-1} (order 0) from y_0 = d0 (0 when not given), returning v = f + A y.
-    Decided on a generic 4-sample history (force columns f0..f3 as symbols, matrices as commuting symbols; the loop over constant bounds is unrolled)."""
-    from .sem import Sem
+    Decided on a generic 4-sample history: the force is a tuple of column symbols f0..f3, the solution array is a history object (c01_ev.Hist)
+    created by the function itself; the rule reads the returned `d` and `v` - local names, loop form (for / while / enumerate over the
+    transposed force term), index shifts and helper boundaries do not matter."""
+    from .c01_ev import Sem01, helpers
     SE1 = "pyyeti/ode/solveexp1.py"
     init = ctx.src.func(SE1, "SolveExp1.__init__")
     ts = ctx.src.func(SE1, "SolveExp1.tsolve")
+    inl = helpers(ctx, (SE1, "SolveExp1"), exclude=("tsolve", "__init__"))
     # constructor
     def call0(node, ev):
         d = dotted(node.func) or ""
@@ -602,7 +779,7 @@ def r8_solveexp1(ctx):
                       None if ok else {k: repr(v) for k, v in got.items()})
             return (F.sym("E"), F.sym("P"), F.sym("Q"))
         return NotImplemented
-    S0 = Sem(ctx, init, call=call0, cond=lambda t, ev: True if utext(t) == "h" else None, env={"A": F.sym("A"), "h": F.sym("h"), "order": F.sym("order")})
+    S0 = Sem01(ctx, init, call=call0, truth={"h": True}, env={"A": F.sym("A"), "h": F.sym("h"), "order": F.sym("order")}, inline=inl)
     ok = all(S0.same(S0.env(f"self.{x}"), F.sym(x)) for x in ("E", "P", "Q", "A", "h", "order"))
     ctx.check(ok, "SolveExp1.__init__: E, P, Q, A, h, order are stored under their own names", init, None if ok else {x: repr(S0.env(f"self.{x}")) for x in "EPQA"})
     NT = 4
@@ -610,61 +787,76 @@ def r8_solveexp1(ctx):
     E_, P_, Q_, A_ = F.sym("E"), F.sym("P"), F.sym("Q"), F.sym("A")
     for order in (1, 0):
         for given in (True, False):
-            def cond(test, ev, order=order, given=given):
-                t = utext(test)
-                return {"force.shape[0]!=self.n": False, "d0isnotNone": given, "d0isNone": not given, "nt>1": True, "self.h": True, "notself.h": False,
-                        "self.order==1": order == 1, "self.order==0": order == 0}.get(t)
-
-            def call(node, ev):
-                d = dotted(node.func) or ""
-                if d == "np.atleast_2d":
-                    return ev.ev(node.args[0])
-                if d in ("np.zeros", "np.empty") and len(node.args) == 2 and ast.unparse(node.args[0]) == "self.n":
-                    return F.const(0)
-                return NotImplemented
-            S = Sem(ctx, ts, cond=cond, call=call, loop_unroll=8, pinned={"nt": F.const(NT)},
-                    env={"force": f, "d0": F.sym("d0"), "self.E": E_, "self.P": P_, "self.Q": Q_, "self.A": A_, "self.h": F.sym("h")})
-            cells = {}
-            for ix, val, st in S.cells("d"):
-                u = None
-                try:
-                    from .sem import unfn
-                    u = unfn(ix)
-                except Exception:  # noqa
-                    pass
-                if u and u[0] == "tuple" and len(u[1]) == 2 and not isinstance(u[1][1], str) and u[1][1].is_const():
-                    cells[int(u[1][1].const_value())] = (val, st)
-            y = F.sym("d0") if given else F.const(0)
-            ok0 = (0 in cells and S.same(cells[0][0], F.sym("d0"))) if given else (0 not in cells)
-            ctx.check(ok0, f"SolveExp1.tsolve (order {order}, d0 {'given' if given else 'None'}): the first column is the initial state"
-                      + ("" if given else " (zero)"), ts)
-            ok = True
-            detail = None
-            for j in range(1, NT):
-                want = E_ * y + P_ * f[j - 1] + (Q_ * f[j] if order == 1 else 0)
-                got = cells.get(j, (None, None))[0]
-                if got is None or is_unknown(got) or isinstance(got, tuple) or not need(got).equals(want):
-                    ok = False
-                    detail = {"step": j, "stored": repr(got), "recurrence": repr(want)}
-                    break
-                y = want
-            ctx.check(ok, f"SolveExp1.tsolve (order {order}, d0 {'given' if given else 'None'}): y_j = E y_j-1 + P f_j-1" + (" + Q f_j" if order == 1 else "")
-                      + " for every step of a generic history", ts, detail)
+            S = Sem01(ctx, ts, nt=NT, inline=inl, truth={"self.h": True}, nonnull={"d0"},
+                      env={"force": f, "d0": F.sym("d0") if given else F.sym("None"), "self.E": E_, "self.P": P_, "self.Q": Q_, "self.A": A_, "self.h": F.sym("self.h"),
+                           "self.order": F.const(order)})
             ns = S.calls("SimpleNamespace")
-            ok = len(ns) == 1 and S.same(ns[0][2].get("d"), F.sym("d")) and isinstance(ns[0][2].get("v"), tuple) \
-                and all(S.same(x, fk + A_ * F.sym("d")) for x, fk in zip(ns[0][2]["v"], f))
-            ctx.check(ok, f"SolveExp1.tsolve (order {order}): returns d and v = f + A d (the first-order equation itself)", ns[0][3] if ns else ts)
+            tag = f"SolveExp1.tsolve (order {order}, d0 {'given' if given else 'None'})"
+            if len(ns) != 1 or not isinstance(ns[0][2].get("d"), tuple) or len(ns[0][2]["d"]) != NT:
+                ctx.error(f"{tag}: the returned displacement history was not lowered", ts, repr(ns[0][2].get("d") if ns else None)[:300])
+                continue
+            dcols = ns[0][2]["d"]
+            y = F.sym("d0") if given else F.const(0)
+            want = [y]
+            for j in range(1, NT):
+                y = E_ * y + P_ * f[j - 1] + (Q_ * f[j] if order == 1 else 0)
+                want.append(y)
+            ok0, _ = _hist_steps(ctx, tag, ts, [(dcols[0],)], [(want[0],)], ("y",))
+            ctx.check(ok0, f"{tag}: the first column is the initial state" + ("" if given else " (zero)"), ts, None if ok0 else repr(dcols[0])[:200])
+            ok, detail = _hist_steps(ctx, tag, ts, [(c,) for c in dcols], [(w,) for w in want], ("y",))
+            ctx.check(ok, f"{tag}: y_j = E y_j-1 + P f_j-1" + (" + Q f_j" if order == 1 else "") + " for every step of a generic history", ts, detail)
+            vv = ns[0][2].get("v")
+            ok = isinstance(vv, tuple) and len(vv) == NT and all(S.same(x, fk + A_ * w) for x, fk, w in zip(vv, f, want))
+            ctx.check(ok, f"SolveExp1.tsolve (order {order}): returns d and v = f + A d (the first-order equation itself)", ns[0][3], None if ok else repr(vv)[:300])
+
+
+def _size_cmp(*names):
+    """ordering comparisons of a size symbol (a positive integer: the branch with equations present is the one examined) with a constant"""
+    def cmp(node, op, L, R, ev):
+        from .c01_ev import unsym, const_of
+        o = type(op)
+        if unsym(R) in names and const_of(L) is not None:
+            L, R = R, L
+            o = {ast.Lt: ast.Gt, ast.LtE: ast.GtE, ast.Gt: ast.Lt, ast.GtE: ast.LtE}[o]
+        c = const_of(R)
+        if unsym(L) not in names or c is None:
+            return None
+        if o is ast.Gt:
+            return True if c < 1 else None
+        if o is ast.GtE:
+            return True if c <= 1 else None
+        if o is ast.Lt:
+            return False if c <= 1 else None
+        return False if c < 1 else None
+    return cmp
+
+
+def _lu_call(node, ev):
+    """la.lu_solve(invm, x) / la.solve(m, x): M^-1 x with the stored factorisation standing for M^-1 (column by column on a history)"""
+    d = dotted(node.func) or ""
+    if d in ("la.lu_solve", "scipy.linalg.lu_solve", "linalg.lu_solve") and len(node.args) >= 2:
+        a, b = ev.ev(node.args[0]), ev.ev(node.args[1])
+        if is_unknown(a) or isinstance(a, tuple):
+            return NotImplemented
+        if isinstance(b, tuple):
+            return tuple(x if is_unknown(x) else need(a) * need(x) for x in b)
+        if is_unknown(b):
+            return b
+        return need(a) * need(b)
+    return NotImplemented
 
 
 def r9_solveexp2(ctx):
     """Second-order exact solver in state-space form z = [v; d], z' = A z + [M^-1 f; 0]: the constructor cuts E = expm(A h) into the four blocks
     E_vv, E_vd, E_dv, E_dd by the [v; d] layout, and tsolve advances d_i+1 = E_dd d_i + E_dv v_i + (P g_i + Q g_i+1)_d,
-    v_i+1 = E_vd d_i + E_vv v_i + (P g_i + Q g_i+1)_v with g = M^-1 f (order 0: no Q term).  Decided on a generic 4-sample history
-    (unrolled loop, stores forwarded to loads), for m None / diagonal / full."""
-    from .sem import Sem, unfn
+    v_i+1 = E_vd d_i + E_vv v_i + (P g_i + Q g_i+1)_v with g = M^-1 f (order 0: no Q term).  Decided on a generic 4-sample history: d, v, a are history
+    objects handed out by the (stubbed) _init_dva; the rule reads the rows `self.kdof` of *those arrays* after the run, for m None / diagonal / full,
+    with contiguous partitions (row blocks are views) and with interleaved ones (row blocks are copies that must be written back)."""
+    from .c01_ev import Sem01, Hist, helpers, NONE
     SE2 = "pyyeti/ode/solveexp2.py"
     init = ctx.src.func(SE2, "SolveExp2.__init__")
     ts = ctx.src.func(SE2, "SolveExp2.tsolve")
+    inl0 = helpers(ctx, (SE2, "SolveExp2"), exclude=("tsolve", "__init__", "generator", "fsolve"))
 
     def call0(node, ev):
         d = dotted(node.func) or ""
@@ -674,7 +866,8 @@ def r9_solveexp2(ctx):
             got = dict(zip(["A", "h", "order"], vals))
             got.update(kws)
             ok = all(k in got and not is_unknown(got[k]) for k in ("A", "h", "order", "half")) and need(got["h"]).equals(F.sym("h")) \
-                and need(got["order"]).equals(F.sym("order")) and need(got["half"]).equals(F.const(1)) and need(got["A"]).equals(F.sym("Astate"))
+                and need(got["order"]).equals(F.sym("order")) and (need(got["half"]).equals(F.const(1)) or need(got["half"]).equals(F.sym("True"))) \
+                and need(got["A"]).equals(F.sym("Astate"))
             ctx.check(ok, "SolveExp2.__init__: E, P, Q = getEPQ(A, h, order, half=True) with A the [v; d] state matrix - P, Q keep only the force half of "
                           "the input columns", node, None if ok else {k: repr(v) for k, v in got.items()})
             return (F.sym("E"), F.sym("P"), F.sym("Q"))
@@ -682,9 +875,8 @@ def r9_solveexp2(ctx):
             return F.sym("Astate")
         return NotImplemented
 
-    S0 = Sem(ctx, init, call=call0, cond=lambda t, ev: True if utext(t).startswith("hand") else None,
-             env={"h": F.sym("h"), "order": F.sym("order"), "self.ksize": F.sym("ksize")})
-    lo, hi = "slice(None, ksize, None)", "slice(ksize, None, None)"
+    S0 = Sem01(ctx, init, call=call0, truth={"h": True}, cmp=_size_cmp("ksize"), inline=inl0,
+               env={"h": F.sym("h"), "order": F.sym("order"), "self.ksize": F.sym("ksize")})
     want = {"E_vv": ("v", "v"), "E_vd": ("v", "d"), "E_dv": ("d", "v"), "E_dd": ("d", "d")}
     half = {"v": S0.ev._index_value(ast.parse("x[:ksize]", mode="eval").body.slice), "d": S0.ev._index_value(ast.parse("x[ksize:]", mode="eval").body.slice)}
     for nm, (r, c) in want.items():
@@ -700,212 +892,176 @@ def r9_solveexp2(ctx):
     f = tuple(F.sym(f"f{k}") for k in range(NT))
     Edd, Edv, Evd, Evv, P_, Q_ = (F.sym(x) for x in ("E_dd", "E_dv", "E_vd", "E_vv", "P", "Q"))
     IM = F.sym("invm")
+    KD = F.sym("self.kdof")
+    inl = helpers(ctx, (SE2, "SolveExp2"), (BASEF, "_BaseODE"),
+                  exclude=("tsolve", "__init__", "generator", "fsolve", "_init_dva", "_init_dv", "_calc_acce_kdof", "_solution", "_solution_freq", "finalize"))
     for order in (1, 0):
         for mcase in ("None", "diagonal", "full"):
-            def cond(test, ev, order=order, mcase=mcase):
-                t = utext(test)
-                return {"ksize>0": True, "nt>1": True, "self.misnotNone": mcase != "None", "self.misNone": mcase == "None", "self.unc": mcase == "diagonal",
-                        "self.order==1": order == 1, "self.order==0": order == 0, "notself.slices": False, "self.slices": True}.get(t)
+            for slices in (True, False):
+                d, v, a = Hist("d", NT), Hist("v", NT), Hist("a", NT)
 
-            def call(node, ev):
-                d = dotted(node.func) or ""
-                if d == "np.atleast_2d":
-                    return ev.ev(node.args[0])
-                if d == "self._init_dva":
-                    return (F.sym("d"), F.sym("v"), F.sym("a"), ev.ev(node.args[0]))
-                if d in ("la.lu_solve", "la.solve") and len(node.args) >= 2:
-                    a, b = ev.ev(node.args[0]), ev.ev(node.args[1])
-                    if is_unknown(a) or isinstance(a, tuple):
-                        return NotImplemented
-                    if isinstance(b, tuple):
-                        return tuple(need(a) * need(x) for x in b)      # invm stands for M^-1 in both storage forms
-                    return need(a) * need(b)
-                return NotImplemented
+                def call(node, ev, d=d, v=v, a=a):
+                    dn = dotted(node.func) or ""
+                    if dn == "self._init_dva":
+                        return (d, v, a, ev.ev(node.args[0]))
+                    return _lu_call(node, ev)
 
-            def sub(node, ev):
-                # force[kdof] -> the history itself (rows restricted); PQF[half, i] -> half(PQF_i); D = d[kdof] / V = v[kdof] -> work arrays
-                t = utext(node)
-                if t == "force[kdof]":
-                    return ev.ev(node.value)
-                if isinstance(node.value, ast.Name) and node.value.id == "PQF" and isinstance(node.slice, ast.Tuple) and len(node.slice.elts) == 2:
-                    pq = ev.env.get("PQF")
-                    i = ev.ev(node.slice.elts[1])
-                    if isinstance(pq, tuple) and not is_unknown(i) and i.is_const():
-                        h_ = utext(node.slice.elts[0])
-                        which = {":ksize": "v", "ksize:": "d"}.get(h_)
-                        k = int(i.const_value())
-                        if which and 0 <= k < len(pq) and not is_unknown(pq[k]):
-                            return F.fn("half", which, need(pq[k]))
-                return NotImplemented
+                S = Sem01(ctx, ts, call=call, nt=NT, inline=inl, fancy_copy=not slices, cmp=_size_cmp("ksize"),
+                          truth={"self.unc": mcase == "diagonal", "self.slices": slices}, nonnull={"M"},
+                          env={"force": f, "self.E_dd": Edd, "self.E_dv": Edv, "self.E_vd": Evd, "self.E_vv": Evv, "self.P": P_, "self.Q": Q_, "self.invm": IM,
+                               "self.ksize": F.sym("ksize"), "self.order": F.const(order), "self.m": NONE if mcase == "None" else F.sym("M")})
+                fk = tuple(F.fn("idx", x, KD) for x in f)
+                g = tuple((IM * x) if mcase != "None" else x for x in fk)
+                db, vb = d.block(repr(KD), KD), v.block(repr(KD), KD)
+                dprev, vprev = d.initial(repr(KD), KD, 0), v.initial(repr(KD), KD, 0)
+                wantc = [(dprev, vprev)]
+                for i in range(NT - 1):
+                    pq = P_ * g[i] + (Q_ * g[i + 1] if order == 1 else 0)
+                    wd = Edd * dprev + Edv * vprev + F.fn("idx", pq, half["d"])
+                    wv = Evd * dprev + Evv * vprev + F.fn("idx", pq, half["v"])
+                    wantc.append((wd, wv))
+                    dprev, vprev = wd, wv
+                ok, detail = _hist_steps(ctx, "", ts, [(db.get(i), vb.get(i)) for i in range(NT)], wantc, ("displacement", "velocity"))
+                if ok and (d.bad or v.bad):
+                    ok, detail = False, {"accesses not modelled": (d.bad + v.bad)[:4]}
+                lay = "contiguous partitions" if slices else "interleaved partitions: row blocks are copies, written back"
+                ctx.check(ok, f"SolveExp2.tsolve (order {order}, m {mcase}, {lay}): d and v follow z_i+1 = E z_i + P g_i" + (" + Q g_i+1" if order == 1 else "")
+                          + " block by block (g = M^-1 f) on a generic history", ts, detail)
 
-            S = Sem(ctx, ts, cond=cond, call=call, subscript=sub, loop_unroll=8, forward_stores=True, pinned={"nt": F.const(NT)},
-                    env={"force": f, "self.E_dd": Edd, "self.E_dv": Edv, "self.E_vd": Evd, "self.E_vv": Evv, "self.P": P_, "self.Q": Q_, "self.invm": IM,
-                         "self.ksize": F.sym("ksize")})
-            g = tuple((IM * x) if mcase != "None" else x for x in f)
-            col = lambda nm, k: F.fn("idx", F.sym(nm), F.fn("tuple", F.fn("slice", F.sym("None"), F.sym("None"), F.sym("None")), F.const(k)))
-            dprev, vprev = col("D", 0), col("V", 0)
-            cells = {}
-            for nm_, ix, val, st in S.ev.cells:
-                u = unfn(ix) if not is_unknown(ix) else None
-                if nm_ in ("D", "V") and u and u[0] == "tuple" and len(u[1]) == 2 and not isinstance(u[1][1], str) and u[1][1].is_const():
-                    cells[(nm_, int(u[1][1].const_value()))] = val
-            ok, detail = True, None
-            for i in range(NT - 1):
-                pq = P_ * g[i] + (Q_ * g[i + 1] if order == 1 else 0)
-                wd = Edd * dprev + Edv * vprev + F.fn("half", "d", pq)
-                wv = Evd * dprev + Evv * vprev + F.fn("half", "v", pq)
-                gd, gv = cells.get(("D", i + 1)), cells.get(("V", i + 1))
-                for got, w, what in ((gd, wd, "displacement"), (gv, wv, "velocity")):
-                    if got is None or is_unknown(got) or isinstance(got, tuple) or not need(got).equals(w):
-                        ok = False
-                        detail = detail or {"step": i + 1, "quantity": what, "stored": repr(got)[:300], "recurrence": repr(w)[:300]}
-                dprev, vprev = wd, wv
-                if not ok:
-                    break
-            ctx.check(ok, f"SolveExp2.tsolve (order {order}, m {mcase}): d and v follow z_i+1 = E z_i + P g_i" + (" + Q g_i+1" if order == 1 else "")
-                      + " block by block (g = M^-1 f) on a generic history", ts, detail)
+
+def _unc_consts(ctx):
+    from .sem import module_consts
+    out = {}
+    for rel in (UTIL, SOLVEUNC):
+        try:
+            out.update(module_consts(ctx, rel))
+        except Exception:  # noqa
+            pass
+    return out
+
+
+UNC_NOT_FOLLOWED = ("tsolve", "__init__", "generator", "fsolve", "_init_dva", "_init_dv", "_calc_acce_kdof", "_solution", "_solution_freq", "finalize", "_delconj",
+                    "_addconj", "get_su_eig", "_solve_real_unc", "_solve_complex_unc", "_solve_real_unc_cdforces", "get_f2x")
 
 
 def r10_real_unc_batch(ctx):
     """SolveUnc's uncoupled time loop: D_i = F D_i-1 + G V_i-1 + A f_i-1 + B f_i, V_i = Fp D_i-1 + Gp V_i-1 + Ap f_i-1 + Bp f_i (order 0: f_i := f_i-1),
     with the eight coefficient vectors of get_su_coef handed over in the positions the loop function declares.  SolveUnc._solve_real_unc is
-    evaluated on a generic 4-sample history with _solve_real_unc_inner_loop followed interprocedurally (so a swapped argument at the call site
-    is seen), loop unrolled, stores forwarded."""
-    from .sem import Sem, unfn, module_funcs
+    evaluated on a generic 4-sample history with every helper followed interprocedurally (so a swapped argument at the call site is seen): d and v
+    are history objects created by the rule and passed in; their `self.kdof` rows are read after the run, for contiguous partitions (row blocks are
+    views) and interleaved ones (copies that must be written back)."""
+    from .c01_ev import Sem01, Hist, helpers
     fn = ctx.src.func(SOLVEUNC, "SolveUnc._solve_real_unc")
     NT = 4
     f = tuple(F.sym(f"f{k}") for k in range(NT))
     C = {x: F.fn("attr:" + x, F.sym("self.pc")) for x in ("F", "G", "A", "B", "Fp", "Gp", "Ap", "Bp")}     # pc = self.pc; pc.F ...
-    inl = {k: v for k, v in module_funcs(ctx, SOLVEUNC).items() if k == "_solve_real_unc_inner_loop"}
-    if not inl:
-        raise AnchorError("_solve_real_unc_inner_loop")
+    inl = helpers(ctx, (SOLVEUNC, "SolveUnc"), (BASEF, "_BaseODE"), exclude=UNC_NOT_FOLLOWED)
+    if "_solve_real_unc_inner_loop" not in inl and not any(k for k in inl if "inner" in k or "loop" in k or "march" in k):
+        ctx.note("C01-R10: no stepping helper found in solveunc.py; the loop is expected inline")
+    KD = F.sym("self.kdof")
+    consts = _unc_consts(ctx)
     for order in (1, 0):
-        def cond(test, ev, order=order):
-            t = utext(test)
-            return {"nt==1": False, "order==1": order == 1, "order==0": order == 0, "notself.slices": False, "self.slices": True}.get(t)
-
-        def sub(node, ev):
-            t = utext(node)
-            if t == "force[kdof]":
-                return ev.ev(node.value)
-            return NotImplemented
-
-        env = {"force": f, "self.order": F.const(order)}
-        S = Sem(ctx, fn, cond=cond, subscript=sub, loop_unroll=8, forward_stores=True, pinned={"nt": F.const(NT)}, env=env, inline=inl)
-        # `pc = self.pc` then `pc.F`: resolve through the env entries self.pc.*
-        cells = {}
-        for nm_, ix, val, st in S.ev.cells:
-            u = unfn(ix) if not is_unknown(ix) else None
-            if nm_ in ("D", "V") and u and u[0] == "tuple" and len(u[1]) == 2 and not isinstance(u[1][1], str) and u[1][1].is_const():
-                cells[(nm_, int(u[1][1].const_value()))] = val
-        col = lambda nm, k: F.fn("idx", F.sym(nm), F.fn("tuple", F.fn("slice", F.sym("None"), F.sym("None"), F.sym("None")), F.const(k)))
-        dp, vp = col("D", 0), col("V", 0)
-        ok, detail = True, None
-        for i in range(1, NT):
-            f1 = f[i] if order == 1 else f[i - 1]
-            wd = C["F"] * dp + C["G"] * vp + C["A"] * f[i - 1] + C["B"] * f1
-            wv = C["Fp"] * dp + C["Gp"] * vp + C["Ap"] * f[i - 1] + C["Bp"] * f1
-            for got, w, what in ((cells.get(("D", i)), wd, "displacement"), (cells.get(("V", i)), wv, "velocity")):
-                if got is None or is_unknown(got) or isinstance(got, tuple) or not need(got).equals(w):
-                    ok = False
-                    detail = detail or {"step": i, "quantity": what, "stored": repr(got)[:300], "recurrence": repr(w)[:300]}
-            dp, vp = wd, wv
-            if not ok:
-                break
-        ctx.check(ok, f"SolveUnc._solve_real_unc (order {order}): every step of a generic history is F d + G v + A f_i-1 + B f_i (and the primed twin), with "
-                      "pc.F ... pc.Bp in the positions of the loop function's parameters", fn, detail)
+        for slices in (True, False):
+            d, v = Hist("d", NT), Hist("v", NT)
+            S = Sem01(ctx, fn, nt=NT, inline=inl, fancy_copy=not slices, truth={"self.slices": slices}, consts=consts,
+                      env={"force": f, "self.order": F.const(order), "d": d, "v": v})
+            fk = tuple(F.fn("idx", x, KD) for x in f)
+            db, vb = d.block(repr(KD), KD), v.block(repr(KD), KD)
+            dp, vp = d.initial(repr(KD), KD, 0), v.initial(repr(KD), KD, 0)
+            want = [(dp, vp)]
+            for i in range(1, NT):
+                f1 = fk[i] if order == 1 else fk[i - 1]
+                wd = C["F"] * dp + C["G"] * vp + C["A"] * fk[i - 1] + C["B"] * f1
+                wv = C["Fp"] * dp + C["Gp"] * vp + C["Ap"] * fk[i - 1] + C["Bp"] * f1
+                want.append((wd, wv))
+                dp, vp = wd, wv
+            ok, detail = _hist_steps(ctx, "", fn, [(db.get(i), vb.get(i)) for i in range(NT)], want, ("displacement", "velocity"))
+            if ok and (d.bad or v.bad):
+                ok, detail = False, {"accesses not modelled": (d.bad + v.bad)[:4]}
+            lay = "contiguous partitions" if slices else "interleaved partitions: row blocks are copies, written back"
+            ctx.check(ok, f"SolveUnc._solve_real_unc (order {order}, {lay}): every step of a generic history is F d + G v + A f_i-1 + B f_i (and the primed "
+                          "twin), with pc.F ... pc.Bp in the positions of the loop function's parameters", fn, detail)
 
 
 def r11_complex_unc_batch(ctx):
     """SolveUnc's coupled (complex-mode) time loop on a generic 4-sample history: rigid-body part d_i+1 = d_i + G v_i + A (g_i + g_i+1 / 2),
     v_i+1 = v_i + Ap (g_i + g_i+1) (order 0: 1.5 A g_i, 2 Ap g_i; with pc.G = h, pc.A = h^2/3, pc.Ap = h/2 checked by C01-R1 these are the exact
     double integrals of the held force); elastic part y_0 = ur_inv_v v_0 + ur_inv_d d_0, y_i+1 = Fe y_i + Ae w_i + Be w_i+1 with
-    w = ur_inv_v M^-1 f, and d = ur_d y, v = ur_v y (real systems: Re(ur y) = rur Re(y) - iur Im(y))."""
-    from .sem import Sem, unfn
+    w = ur_inv_v M^-1 f, and d = ur_d y, v = ur_v y (real systems: Re(ur y) = rur Re(y) - iur Im(y)).  d, v, a are history objects created by the rule;
+    the rows `self.rb` / `self.kdof` of those arrays are read after the run (helpers followed, any loop form)."""
+    from .c01_ev import Sem01, Hist, helpers
     fn = ctx.src.func(SOLVEUNC, "SolveUnc._solve_complex_unc")
     NT = 4
     f = tuple(F.sym(f"f{k}") for k in range(NT))
     pc = lambda x: F.fn("attr:" + x, F.sym("self.pc"))
-    colix = lambda k: F.fn("tuple", F.fn("slice", F.sym("None"), F.sym("None"), F.sym("None")), F.const(k))
+    inl = helpers(ctx, (SOLVEUNC, "SolveUnc"), (BASEF, "_BaseODE"), exclude=UNC_NOT_FOLLOWED)
+    consts = _unc_consts(ctx)
+    RB, KD = F.sym("self.rb"), F.sym("self.kdof")
+    IMRB, IM = F.sym("imrb"), F.sym("invm")
     for order in (1, 0):
         for systype in ("float", "complex"):
-            def cond(test, ev, order=order, systype=systype):
-                t = utext(test)
-                return {"self.rbsize": True, "self.misnotNone": True, "self.unc": True, "nt>1": True, "self.order==1": order == 1, "self.order==0": order == 0,
-                        "notself.slices": False, "self.ksizeandnt>1": True, "self.ksize": True, "self.systypeisfloat": systype == "float"}.get(t)
-
-            def sub(node, ev):
-                t = utext(node)
-                if t in ("force[rb]", "force[kdof]"):
-                    return ev.ev(node.value)
-                if t.endswith("[:,None]"):
-                    return ev.ev(node.value)           # column broadcast of a per-mode coefficient
-                return NotImplemented
-
-            def call(node, ev):
-                d = dotted(node.func) or ""
-                if d == "np.empty":
-                    return F.const(0)
-                return NotImplemented
-
-            S = Sem(ctx, fn, cond=cond, subscript=sub, call=call, loop_unroll=8, forward_stores=True, pinned={"nt": F.const(NT)},
-                    env={"force": f, "self.imrb": F.sym("imrb"), "self.invm": F.sym("invm")})
-            cells = {}
-            for nm_, ix, val, st in S.ev.cells:
-                u = unfn(ix) if not is_unknown(ix) else None
-                if u and u[0] == "tuple" and len(u[1]) == 2 and not isinstance(u[1][1], str) and u[1][1].is_const():
-                    cells[(nm_, int(u[1][1].const_value()))] = val
-            g = tuple(F.sym("imrb") * x for x in f)
-            dp, vp = F.fn("idx", F.sym("drb"), colix(0)), F.fn("idx", F.sym("vrb"), colix(0))
-            ok, detail = True, None
-            for i in range(NT - 1):
-                if order == 1:
-                    wd = dp + pc("G") * vp + pc("A") * (g[i] + g[i + 1] / 2)
-                    wv = vp + pc("Ap") * (g[i] + g[i + 1])
-                else:
-                    wd = dp + pc("G") * vp + F.const(3) / 2 * pc("A") * g[i]
-                    wv = vp + 2 * pc("Ap") * g[i]
-                for got, w, what in ((cells.get(("drb", i + 1)), wd, "displacement"), (cells.get(("vrb", i + 1)), wv, "velocity")):
-                    if got is None or is_unknown(got) or isinstance(got, tuple) or not need(got).equals(w):
-                        ok = False
-                        detail = detail or {"step": i + 1, "quantity": what, "stored": repr(got)[:300], "recurrence": repr(w)[:300]}
-                dp, vp = wd, wv
-                if not ok:
-                    break
-            ctx.check(ok, f"_solve_complex_unc (order {order}, {systype}): rigid-body part is the exact double integration of the held modal acceleration "
-                          "g = M_rb^-1 f on a generic history", fn, detail)
-            ok = S.same(S.cell("a", "rb"), g)
-            ctx.check(ok, f"_solve_complex_unc (order {order}, {systype}): rigid-body acceleration is M_rb^-1 f at every sample", fn)
+            runs = {}
+            for slices in (True, False):
+                d, v, a = Hist("d", NT), Hist("v", NT), Hist("a", NT)
+                S = Sem01(ctx, fn, call=_lu_call, nt=NT, inline=inl, fancy_copy=not slices, consts=consts, nonnull={"M"},
+                          truth={"self.rbsize": True, "self.ksize": True, "self.unc": True, "self.slices": slices},
+                          env={"force": f, "self.imrb": IMRB, "self.invm": IM, "self.m": F.sym("M"), "self.order": F.const(order), "self.systype": F.sym(systype),
+                               "d": d, "v": v, "a": a})
+                runs[slices] = (d, v, a, S)
+            tag = f"_solve_complex_unc (order {order}, {systype})"
+            g = tuple(IMRB * F.fn("idx", x, RB) for x in f)
+            for slices in (True, False):
+                d, v, a, S = runs[slices]
+                db, vb = d.block(repr(RB), RB), v.block(repr(RB), RB)
+                dp, vp = d.initial(repr(RB), RB, 0), v.initial(repr(RB), RB, 0)
+                want = [(dp, vp)]
+                for i in range(NT - 1):
+                    if order == 1:
+                        wd = dp + pc("G") * vp + pc("A") * (g[i] + g[i + 1] / 2)
+                        wv = vp + pc("Ap") * (g[i] + g[i + 1])
+                    else:
+                        wd = dp + pc("G") * vp + F.const(3) / 2 * pc("A") * g[i]
+                        wv = vp + 2 * pc("Ap") * g[i]
+                    want.append((wd, wv))
+                    dp, vp = wd, wv
+                ok, detail = _hist_steps(ctx, "", fn, [(db.get(i), vb.get(i)) for i in range(NT)], want, ("displacement", "velocity"))
+                lay = "" if slices else " (interleaved partitions: the rigid-body row blocks are copies, written back)"
+                ctx.check(ok, f"{tag}: rigid-body part is the exact double integration of the held modal acceleration g = M_rb^-1 f on a generic history" + lay,
+                          fn, detail)
+            d, v, a, S = runs[True]
+            ab = a.block(repr(RB), RB)
+            ok, detail = _hist_steps(ctx, "", fn, [(ab.get(i),) for i in range(NT)], [(x,) for x in g], ("acceleration",))
+            ctx.check(ok, f"{tag}: rigid-body acceleration is M_rb^-1 f at every sample", fn, detail)
             # elastic part
-            w_ = tuple(pc("ur_inv_v") * (F.sym("invm") * x) for x in f)
-            y0 = cells.get(("y", 0))
-            E = S.E
-            ok = y0 is not None and S.same(y0, "pc.ur_inv_v @ v[kdof, 0] + pc.ur_inv_d @ d[kdof, 0]")
-            ctx.check(ok, f"_solve_complex_unc (order {order}, {systype}): modal state y_0 = ur_inv_v v_0 + ur_inv_d d_0 (state layout [v; d])", fn,
-                      None if ok else repr(y0))
-            yp = y0
-            ok, detail = y0 is not None and not is_unknown(y0), None
+            w_ = tuple(pc("ur_inv_v") * (IM * F.fn("idx", x, KD)) for x in f)
+            y0w = pc("ur_inv_v") * v.initial(repr(KD), KD, 0) + pc("ur_inv_d") * d.initial(repr(KD), KD, 0)
+            yw = [y0w]
             for i in range(NT - 1):
-                if not ok:
-                    break
-                wy = pc("Fe") * need(yp) + pc("Ae") * w_[i] + (pc("Be") * w_[i + 1] if order == 1 else pc("Be") * w_[i])
-                got = cells.get(("y", i + 1))
-                if got is None or is_unknown(got) or isinstance(got, tuple) or not need(got).equals(wy):
-                    ok = False
-                    detail = {"step": i + 1, "stored": repr(got)[:300], "recurrence": repr(wy)[:300]}
-                yp = wy
-            ctx.check(ok, f"_solve_complex_unc (order {order}, {systype}): y_i+1 = Fe y_i + Ae w_i + Be w_i+1 with w = ur_inv_v M^-1 f on a generic history", fn, detail)
-            Y = "y[:, 1:]"
-            if systype == "float":
-                wd_ = f"pc.rur_d @ {Y}.real.copy() - pc.iur_d @ {Y}.imag.copy()"
-                wv_ = f"pc.rur_v @ {Y}.real.copy() - pc.iur_v @ {Y}.imag.copy()"
+                yw.append(pc("Fe") * yw[-1] + pc("Ae") * w_[i] + (pc("Be") * w_[i + 1] if order == 1 else pc("Be") * w_[i]))
+            ys = [H for H in S.ev.hists]
+            if len(ys) == 1:
+                yb = ys[0].root()
+                ok, detail = _hist_steps(ctx, "", fn, [(yb.get(0),)], [(yw[0],)], ("modal state",))
+                ctx.check(ok, f"{tag}: modal state y_0 = ur_inv_v v_0 + ur_inv_d d_0 (state layout [v; d])", fn, detail)
+                ok, detail = _hist_steps(ctx, "", fn, [(yb.get(i),) for i in range(NT)], [(x,) for x in yw], ("modal state",))
+                ctx.check(ok, f"{tag}: y_i+1 = Fe y_i + Ae w_i + Be w_i+1 with w = ur_inv_v M^-1 f on a generic history", fn, detail)
             else:
-                wd_ = f"pc.ur_d @ {Y}"
-                wv_ = f"pc.ur_v @ {Y}"
-            ok = S.same(S.cell("d", "kdof, 1:"), wd_) and S.same(S.cell("v", "kdof, 1:"), wv_)
-            ctx.check(ok, f"_solve_complex_unc (order {order}, {systype}): d = ur_d y and v = ur_v y on the dynamic equations" +
-                      (" (real part taken as rur Re y - iur Im y)" if systype == "float" else ""), fn,
-                      None if ok else {"d": repr(S.cell("d", "kdof, 1:"))[:300], "v": repr(S.cell("v", "kdof, 1:"))[:300]})
+                yb = None
+            if systype == "float":
+                re, im = (lambda x: F.fn("attr:real", x)), (lambda x: F.fn("attr:imag", x))
+                wantdv = [(pc("rur_d") * re(y) - pc("iur_d") * im(y), pc("rur_v") * re(y) - pc("iur_v") * im(y)) for y in yw[1:]]
+            else:
+                wantdv = [(pc("ur_d") * y, pc("ur_v") * y) for y in yw[1:]]
+            db, vb = d.block(repr(KD), KD), v.block(repr(KD), KD)
+            ok, detail = _hist_steps(ctx, "", fn, [(db.get(i), vb.get(i)) for i in range(1, NT)], wantdv, ("displacement", "velocity"))
+            if ok and (d.bad or v.bad):
+                ok, detail = False, {"accesses not modelled": (d.bad + v.bad)[:4]}
+            if yb is None:
+                # no separate modal-state array to read: the two modal obligations are decided through the recovered d, v
+                ctx.check(ok, f"{tag}: modal state y_0 = ur_inv_v v_0 + ur_inv_d d_0 (state layout [v; d])", fn, detail)
+                ctx.check(ok, f"{tag}: y_i+1 = Fe y_i + Ae w_i + Be w_i+1 with w = ur_inv_v M^-1 f on a generic history", fn, detail)
+            ctx.check(ok, f"{tag}: d = ur_d y and v = ur_v y on the dynamic equations" +
+                      (" (real part taken as rur Re y - iur Im y)" if systype == "float" else ""), fn, detail)
 
 
 RULES = [
@@ -916,30 +1072,35 @@ RULES = [
     ("C01-R6", r6_equilibrium_acceleration, 11),
     ("C01-R7", r7_subspace_typing, 12),
     ("C01-R8", r8_solveexp1, 14),
-    ("C01-R9", r9_solveexp2, 12),
-    ("C01-R10", r10_real_unc_batch, 2),
-    ("C01-R11", r11_complex_unc_batch, 20),
+    ("C01-R9", r9_solveexp2, 18),
+    ("C01-R10", r10_real_unc_batch, 4),
+    ("C01-R11", r11_complex_unc_batch, 24),
 ]
 
 LEVEL = "other"
 EXPLANATION = "see DESIGN.md section 3, C01"
 
 MANIFEST = {
-    "text": "Partial claim, decided statically for all inputs: the closed-form one-step coefficients extracted from "
-            "get_su_coef satisfy the defining ODE identities (homogeneous, constant-force and ramp-force particular "
-            "solutions with their h->0 initial values) in every damping regime, for m given and m=None, and each "
-            "regime is the continuous limit of its neighbour; regime selectors depend on the mass-normalised problem only and the complex-path "
-            "coefficients are the exact constant/ramp integrals (R1b); every subscript/operand pair in the ODE package agrees on its index space "
-            "(full / non-rf / rb / el / rf, state halves) in both coefficient modes (R3); on the pre_eig path user arrays enter and leave through phi (R4); "
-            "the kdof acceleration is M^-1 (F - B v - K d) with the full damping in all six arms (R6); the mask / index selectors of get_su_coef and the "
+    "text": "Partial claim, decided statically for all inputs: the closed-form one-step coefficients of get_su_coef - extracted by evaluating the function "
+            "for one generic mode of each damping regime, every mask / index vector being the truth value 'this mode is selected' - satisfy the defining "
+            "ODE identities (homogeneous, constant-force and ramp-force particular solutions with their h->0 initial values) in every damping regime, for m "
+            "given and m=None, each regime is the continuous limit of its neighbour and the three elastic regimes tile the axis of w2/wo2; both operands of "
+            "every mode-selecting comparison depend on the mass-normalised problem only and the complex-path coefficients are the exact constant/ramp "
+            "integrals with a step-independent near-zero cut-off (R1b); every subscript/operand pair in the ODE package agrees on its index space "
+            "(full / non-rf / rb / el / rf, state halves) in both coefficient modes and _build_A lays the state out as [v; d] (R3); on the pre_eig path user "
+            "arrays enter and leave through phi and the generator path refuses pre_eig before allocating (R4); "
+            "the kdof acceleration is M^-1 (F - B v - K d) with the full damping in all six arms, the damping carried as a force is b minus its diagonal on "
+            "the non-rf equations, and every time-domain solution calls it on the finished d, v (R6); the mask / index selectors of get_su_coef and the "
             "partition construction (_make_rb_el, _chk_diag_part) are applied to arrays of their own sub-space (R7); SolveExp1, SolveExp2 (all four E blocks, "
             "m None/diagonal/full), the uncoupled SolveUnc loop (with the coefficient vectors in the loop function's parameter positions) and the complex-mode "
-            "loop (rigid-body double integration, modal recurrence, ur_d/ur_v mapping) are the documented one-step recurrences on a generic 4-sample history "
-            "(R8-R11: loops over constant ranges unrolled, stores forwarded to loads, helper followed interprocedurally). "
+            "loop (rigid-body double integration, modal recurrence, ur_d/ur_v mapping) are the documented one-step recurrences on a generic 4-sample history, "
+            "for contiguous partitions (row blocks are views) and interleaved ones (copies written back) "
+            "(R8-R11: the history arrays are objects with identity created by the rule; loops, helpers, aliases and local names are evaluated away). "
             "Does not decide round-off levels, "
             "conditioning grades or library eigen/expm calls.",
-    "note": "Trusted: CPython ast parser, the exact rational normal-form engine (verifier/e2_formula.py); assumes the regime "
-            "partition vectors select w2>0 / w2=0 / w2<0 as their defining comparisons say (checked structurally).",
-    "technique": "static formula extraction from the AST + exact rational/transcendental normal forms (differentiation, series) checked against ODE identities; "
-                 "index-space / sub-space type inference; symbolic evaluation of the solver loops on a generic history compared with the documented recurrence",
+    "note": "Trusted: CPython ast parser, the exact rational normal-form engine (verifier/e2_formula.py), the abstract interpreter verifier/e2_eval.py + "
+            "verifier/c01_ev.py; regime membership of the generic mode is decided by the comparisons of the code itself (a quantity proportional to w2/wo2 "
+            "is far above / far below every threshold in the under / over-damped regime, |b/m| far above the damping cut-offs in the damped rigid-body regime).",
+    "technique": "abstract interpretation of the source on symbols (one generic mode per regime; a generic short history with array objects) + exact "
+                 "rational/transcendental normal forms (differentiation, series) checked against ODE identities; index-space / sub-space type inference",
 }
